@@ -528,6 +528,9 @@ func sampleKs(r *Rng, ents []tocEnt, hdrLen, total, extra int) []string {
 		}
 	}
 	add(0)
+	add(6)
+	add(12)
+	add(28)
 	add(hdrLen)
 	add(total)
 	for _, e := range ents {
@@ -550,6 +553,21 @@ func sampleKs(r *Rng, ents []tocEnt, hdrLen, total, extra int) []string {
 }
 
 var honestKinds = []string{"short", "atomic", "late"}
+
+var faultTags = []string{"head", "hhea", "maxp", "OS/2", "hmtx", "cmap", "fpgm", "prep", "cvt ", "loca", "glyf", "kern",
+	"name", "post", "gasp", "DSIG", "CFF ", "GSUB", "GPOS", "GDEF"}
+
+// faultTag: a table name, half of the time one with a place in the writer's table order.
+func faultTag(r *Rng) string {
+	if r.Chance(1, 2) {
+		return Pick(r, faultTags)
+	}
+	b := make([]byte, 4)
+	for i := range b {
+		b[i] = byte(r.Range(0x20, 0x7e))
+	}
+	return string(b)
+}
 
 func countVerdicts(c *Ctx, group, out string) {
 	for _, ch := range out {
@@ -662,7 +680,7 @@ func synthCases(c *Ctx, i int) {
 		tabs["head"] = make([]byte, Pick(r, []int{12, 54, 54, r.Range(12, 80)}))
 	}
 	for len(tabs) < n {
-		t := randTag(r)
+		t := faultTag(r)
 		if t == "head" {
 			continue
 		}
@@ -671,7 +689,7 @@ func synthCases(c *Ctx, i int) {
 	}
 	switch i % 7 {
 	case 3:
-		tabs[randTag(r)] = nil // not written
+		tabs[faultTag(r)] = nil // not written
 	case 4:
 		tabs["abc"] = make([]byte, 5) // not written: name is not 4 bytes
 	case 5:
@@ -723,9 +741,12 @@ func synthCases(c *Ctx, i int) {
 		}
 	}
 	// damaged directory (outside the property's domain; ties the model of header.Read)
-	for m := 0; m < 4; m++ {
+	for m := 0; m < 5; m++ {
 		h := append([]byte{}, data[:hdrLen]...)
-		switch r.Intn(4) {
+		switch (m + r.Intn(2)) % 5 {
+		case 4: // at and above the limit on the number of tables
+			n := 280 + r.Intn(2)
+			h[4], h[5] = byte(n>>8), byte(n)
 		case 0:
 			h[r.Intn(len(h))] ^= byte(1 << r.Intn(8))
 		case 1:
